@@ -13,10 +13,10 @@ CLAIMED = {
  "C01": ("SSA path tables of Goify/fixReservedGo/NameScope.Unique/HashedUnique, datakeys and variant rules of the validation templates, write-pipeline gates, dominance-based division rule, prepared-copy and scoped-name rules, generator-wide lints (stale flags/variables, memo keys, recursion guards, slice reuse, template range elements)",
          "Static necessary conditions only, on the mechanisms C01's anchors name: reserved-word escape unavoidable, name allocation registers what it returns, no missing template key, written Go files parsed with errors propagated, no division by a zero length difference in example generation, kind checks on the type-resolved copies, generated variable names allocated through the scope, and generator-wide crash/duplication lints. Does not decide type-correctness of generated packages for all designs (translation validation is another family).",
          "DESIGN.md §3 C01"),
- "C02": ("pairing rule on the name tables, data-flow from endpoint fields to removeAttribute(s), strconv conversion-template tables, wire-key rule over template accessors, SSA path tables of Vars/unescape/RequestDecoder, template range-element and required-key lints",
+ "C02": ("pairing rule on the name tables, data-flow from endpoint fields to removeAttribute(s), call-order rule (every removal from a body follows the merge of inherited attributes), strconv conversion-template tables, wire-key rule over template accessors, SSA path tables of Vars/unescape/RequestDecoder, template range-element and required-key lints",
          "Static necessary conditions only: inverse name tables, total and disjoint attribute→location partition by construction, inverse conversion pairs per primitive, wire accessors keyed by wire-name fields on both sides, presence guards on the raw variable, path values unescaped once, request codec of the announced (sanitised) type. Does not decide equality of received and sent payloads.",
          "DESIGN.md §3 C02/C03"),
- "C03": ("template rules on status/headers/body order and tag selection, go/cfg order rule on dsl.Response, error-capture rule on the transform walkers, constant TABLE against net/http, shared wire-key/conversion/partition rules, tag-pointer and stale-state lints on the response data builder",
+ "C03": ("template rules on status/headers/body order and tag selection, go/cfg order rule on dsl.Response, error-capture rule on the transform walkers, constant TABLE against net/http, shared wire-key/conversion/partition and removal-order rules, tag-pointer and stale-state lints on the response data builder",
          "Static necessary conditions only: status written = status of the response being encoded, after headers; tag selection by the element's tag value; default status before the response DSL; walker errors tested; status vocabulary equals net/http's; response body = result minus headers/cookies; wire keys and conversions as for C02; viewed tag pointers. Does not decide equality of received and sent results.",
          "DESIGN.md §3 C02/C03"),
  "C04": ("reaching-constants dataflow over the template data map (datakeys), abstract template expansion (variants) parsed with go/parser, keyword semantics tables, CONSUMES via reachability-scoped field reads, sibling-direction and loop-exit lints, SSA path table of ValidateFormat",
